@@ -268,6 +268,7 @@ class Check:
         # ---- validate sampled paths natively
         validated = 0
         val_mismatch = []
+        val_skipped = 0
         nval = getattr(spec, "VALIDATE_N", {"quick": 5, "thorough": 25})[self.tier]
         if getattr(spec, "VALIDATE", True) and bg.get("twins") and samples:
             step = max(1, len(samples) // nval)
@@ -284,6 +285,10 @@ class Check:
                         (sm.get("out_sha") is None or not getattr(spec, "VALIDATE_OUT_SHA", True) or nat["out_sha"] == sm["out_sha"]))
                 if good:
                     validated += 1
+                elif nat.get("assume_fail"):
+                    # the native twin restricts inputs further than the engine (e.g. C20: well-conditioned floats
+                    # only, the engine proves the law for all reals): the sample is not comparable
+                    val_skipped += 1
                 else:
                     val_mismatch.append({"entry": job["entry"], "args": job.get("args"), "engine_reach": sm.get("reached"),
                                          "native": _short(nat), "engine_out_sha": sm.get("out_sha")})
@@ -311,7 +316,7 @@ class Check:
             "functions_encoded_top": [k for k, _ in sorted(fns.items(), key=lambda kv: -kv[1])[:60]],
             "bounds": getattr(spec, "BOUNDS", {}).get(self.tier, getattr(spec, "BOUNDS", {})),
             "known_findings_hit": known_hit, "violations_confirmed": confirmed, "unreproduced_counterexamples": unreproduced[:20],
-            "validation_mismatches": val_mismatch[:10], "build_s": round(t_build, 1),
+            "validation_mismatches": val_mismatch[:10], "validation_samples_outside_native_assumptions": val_skipped, "build_s": round(t_build, 1),
             "engine_errors": errors[:10],
             "solver": "z3 %s (incremental, python API)" % _z3ver(),
             "job_results_reused_from_cache": agg.get("reused", 0),
